@@ -158,8 +158,8 @@ def build_driver():
     rc, out = sh("cd %s && make -j16 $(ls Model/*.v | sed 's/\\.v$/.vo/') > /dev/null && cd ../ocaml && "
                  "coqc -Q ../coq/Model RV.Model -Q ../coq/Spec RV.Spec -Q ../coq/Proofs RV.Proofs -Q ../coq/Props RV.Props "
                  "-Q ../coq/Extract RV.Extract ../coq/Extract/Extract.v > /dev/null && "
-                 "ocamlfind ocamlopt -O2 -w -a rvmodel.mli rvmodel.ml conv.ml driver.ml main.ml -o driver 2>/dev/null || "
-                 "ocamlfind ocamlopt -w -a rvmodel.mli rvmodel.ml conv.ml driver.ml main.ml -o driver" % COQ, timeout=3000)
+                 "ocamlfind ocamlopt -O2 -w -a rvmodel.mli rvmodel.ml conv.ml driver.ml d_lex.ml d_parse.ml main.ml -o driver 2>/dev/null || "
+                 "ocamlfind ocamlopt -w -a rvmodel.mli rvmodel.ml conv.ml driver.ml d_lex.ml d_parse.ml main.ml -o driver" % COQ, timeout=3000)
     return rc == 0, out[-3000:]
 
 
@@ -282,3 +282,12 @@ def finish(ctx):
 def violation(ctx, name, obj, found_input):
     p = write_replay(ctx, name, obj)
     ctx.violations.append((p, "" if found_input else "no-failing-input-found"))
+
+
+def store_cmd(cmd, files, base):
+    """files: list of (path, text or None for an IO fault)"""
+    parts = [cmd, str(len(files))]
+    for p, t in files:
+        parts += [enc(p), "t" if t is not None else "f", enc(t) if t is not None else "-"]
+    parts.append(enc(base))
+    return " ".join(parts)
